@@ -59,7 +59,7 @@ PROP = dict(
     jobs=dict(
         quick=[
             job("routing", "^TestVerifC19FindPath$", ["TestVerifC19FindPath"], 12000, shards=6),
-            job("routing", "^TestVerifC19RequestRoute$", ["TestVerifC19RequestRoute"], 3000, shards=2),
+            job("routing", "^TestVerifC19RequestRoute$", ["TestVerifC19RequestRoute"], 4000, shards=3),
             job("routing", "^TestVerifC19BuildRoute$", ["TestVerifC19BuildRoute"], 30000, shards=6),
             job("routing", "^TestVerifC19FindRoute$", ["TestVerifC19FindRoute"], 1500, shards=2),
         ],
